@@ -6,6 +6,8 @@ a `return` before any loop or delegating call is an early exit. Its path conditi
 is compared with the specification's feasibility predicate (unbounded integers) in every finite model of
 (pos, size(needle), size(haystack)).
 """
+import re
+from . import sets as SP
 from .. import astx
 from .. import prog as P
 from .. import terms as T
@@ -439,4 +441,307 @@ def check_fwindow(chk, db, rule="FWINDOW"):
                                   {"where": astx.loc(f)})
                 elif verdict is None:
                     chk.unknown_instance(rule, label, "the end of the scan is not a linear form of data() and size()")
+    return n
+
+
+# ---- FIRSTREAD: the first character a positional search looks at -----------------------------------------------------------
+class _Read(Exception):
+    def __init__(self, index, node):
+        Exception.__init__(self, "read")
+        self.index = index
+        self.node = node
+
+
+def _first_read(f, env, S, sizes, max_steps=400):
+    """Execute the member concretely (positions measured from data() = 0, 64-bit wrap-around) up to the first statement that
+    reads a character of the view itself: unsafe_at(i) / at(i) / (*this)[i] / data()[i] / *p / p[i] for a pointer p formed from
+    data(). Lambdas are not executed; a statement that mentions a lambda containing such a read counts as performing it.
+    returns the index read, or None when the member returns without reading; raises _NM when it leaves the fragment"""
+    lambdas = {}
+    steps = [0]
+
+    def candidates(e):
+        """index expressions of view reads syntactically inside e (execution order approximated by pre-order)"""
+        out = []
+        for x in astx.walk_expr(e, into_lambdas=True):
+            k = x.get("k")
+            if k == "ref" and x.get("n") in lambdas:
+                out += candidates(lambdas[x["n"]])
+            if k == "lambda" and x is not e:
+                continue
+            if k == "call":
+                nm, q, recv, kind = astx.callee(x)
+                r = astx.strip_casts(recv) if recv is not None else None
+                if nm in ("unsafe_at", "at", "operator[]") and len(x["a"]) == 1 and (r is None or astx.is_this(r)):
+                    out.append(x["a"][0])
+            if k == "idx":
+                b = astx.strip_casts(x["b"])
+                if b is not None and b.get("k") == "un" and b.get("op") == "*" and astx.is_this(astx.strip_casts(b["e"])):
+                    out.append(x["i"])
+                else:
+                    out.append({"k": "bin", "op": "+", "l": x["b"], "r": x["i"]})
+            if k == "un" and x.get("op") == "*" and not x.get("postfix"):
+                t = astx.strip_casts(x["e"])
+                if t is not None and not astx.is_this(t):
+                    out.append(x["e"])
+        return out
+
+    def lam_body_exprs(lam):
+        return lam
+
+    def probe(e):
+        for idx in candidates(e):
+            try:
+                v = _ival(idx, dict(env), S, sizes)       # on a copy: only the chosen read's side effects count
+            except _NM:
+                continue
+            v = _ival(idx, env, S, sizes)
+            raise _Read(v, idx)
+
+    def run(stmts):
+        for st in stmts:
+            steps[0] += 1
+            if steps[0] > max_steps:
+                raise _NM("step limit")
+            if st is None:
+                continue
+            k = st.get("k")
+            if k == "seq":
+                run(st["s"])
+            elif k == "decl":
+                for v in st["vars"]:
+                    if "other" in v or v.get("init") is None:
+                        continue
+                    i0 = astx.strip_casts(v["init"])
+                    if i0 is not None and i0.get("k") == "lambda":
+                        lambdas[v["n"]] = i0
+                        continue
+                    probe(v["init"])
+                    env[v["n"]] = _ival(v["init"], env, S, sizes)
+            elif k == "expr":
+                probe(st["e"])
+                _ival(st["e"], env, S, sizes)
+            elif k == "if":
+                probe(st["c"])
+                br = st.get("then") if _ival(st["c"], env, S, sizes) else st.get("else")
+                if br is not None:
+                    run([br])
+            elif k == "return":
+                if st.get("e") is not None:
+                    probe(st["e"])
+                raise _Ret()
+            elif k == "null":
+                continue
+            elif k in ("for", "while", "do"):
+                if k == "for" and st.get("init") is not None:
+                    run([st["init"]])
+                first = True
+                while True:
+                    steps[0] += 1
+                    if steps[0] > max_steps:
+                        raise _NM("step limit")
+                    if not (k == "do" and first) and st.get("c") is not None:
+                        probe(st["c"])
+                        if not _ival(st["c"], env, S, sizes):
+                            break
+                    first = False
+                    try:
+                        run([st.get("body")])
+                    except _Brk:
+                        break
+                    except _Cont:
+                        pass
+                    if k == "for" and st.get("inc") is not None:
+                        probe(st["inc"])
+                        _ival(st["inc"], env, S, sizes)
+            elif k == "rangefor":
+                # a loop over the (non-empty) needle: its first pass decides which character of the view is read first
+                run([st.get("body")])
+                raise _NM("range-for without a read of the view")
+            elif k == "break":
+                raise _Brk()
+            elif k == "continue":
+                raise _Cont()
+            else:
+                raise _NM("statement " + str(k))
+    try:
+        run(f["body"].get("s") or [])
+    except _Read as r:
+        return r.index
+    except _Ret:
+        return None
+    return None
+
+
+class _Brk(Exception):
+    pass
+
+
+class _Cont(Exception):
+    pass
+
+
+FIRSTREAD_TARGETS = {"rfind": "last", "find_last_of": "last", "find_last_not_of": "last",
+                     "find": "first", "find_first_of": "first", "find_first_not_of": "first"}
+
+
+def check_first_read(chk, db, record="etl::basic_string_view", rule="FIRSTREAD"):
+    """[string.view.find]: a backward search looks at position min(pos, size() - 1) first (single characters; rfind of a
+    character, find_last_of, find_last_not_of), a forward search at pos when pos < size() and at nothing otherwise. Every
+    overload that scans by itself is executed in the models size() in 1..3, pos in 0..4 and npos, needle length 1..2."""
+    n = 0
+    for nm, direction in sorted(FIRSTREAD_TARGETS.items()):
+        for f in db.by_q.get(record + "::" + nm, []):
+            if f.get("body") is None or len(f["params"]) != 2:
+                continue
+            stmts = f["body"].get("s") or []
+            if len(stmts) == 1 and stmts[0].get("k") == "return":
+                continue        # delegation
+            p0, p1 = f["params"]
+            needle_is_view = "string_view" in p0["ty"]
+            if nm in ("rfind", "find") and needle_is_view:
+                continue        # windows of substring searches: RWINDOW / BOUND
+            if not needle_is_view and "Char" not in p0["ty"].replace("const", "").strip().split(" ")[0] and p0["ty"].strip() not in ("Char", "const Char"):
+                continue
+            n += 1
+            construct = astx.sig(f)
+            chk.instance(rule)
+            bad = unknown = None
+            judged = 0
+            for S in (1, 2, 3):
+                for N in ((1, 2) if needle_is_view else (1,)):
+                    for P in (0, 1, 2, 3, 4, M64 - 1):
+                        env = {p1["n"]: P}
+                        if not needle_is_view:
+                            env[p0["n"]] = 97
+                        sizes = {p0["n"]: N} if needle_is_view else {}
+                        try:
+                            got = _first_read(f, env, S, sizes)
+                        except _NM as ex:
+                            unknown = str(ex)
+                            break
+                        judged += 1
+                        want = min(P, S - 1) if direction == "last" else (P if P < S else None)
+                        if got != want and bad is None:
+                            bad = (P, N, S, got, want)
+                    if unknown:
+                        break
+                if unknown:
+                    break
+            if unknown:
+                chk.obligation(rule, construct, None)
+                chk.unknown_instance(rule, construct, "not evaluated: %s" % unknown)
+                continue
+            chk.obligation(rule, construct, bad is None, evaluations=judged)
+            if bad:
+                P, N, S, got, want = bad
+                sh = lambda v: "no character" if v is None else ("npos" if v == M64 - 1 else "position %d" % v)      # noqa: E731
+                chk.violation(rule, construct, "first-position", "%s: with pos = %s and size() = %d the search first looks at %s; "
+                              "[string.view.find] makes %s the first candidate" % (
+                                  astx.loc(f), "npos" if P == M64 - 1 else P, S, sh(got), sh(want)), {"where": astx.loc(f)})
+    return n
+
+
+# ---- WRAP: a position argument that may be npos is not incremented before it has been bounded ---------------------------------
+POINTERISH = ("data", "begin", "cbegin", "end", "cend", "c_str")
+
+
+def check_pos_wrap(chk, f, rule="WRAP"):
+    """Search members accept any position, including npos = size_type(-1). `pos + k`, `++pos`, `pos += k` on the raw parameter
+    wraps around to a small number when pos is npos (or close to it). On every path the first arithmetic on such a parameter
+    is preceded by a bound (`pos < x` / `pos <= x` true, `pos >= x` / `pos > x` false, `pos != npos`) or by re-assigning it
+    from min / clamp. returns None (no position parameter that is added to) | list of (param, node)"""
+    if f.get("body") is None:
+        return None
+    params = [p["n"] for p in f["params"] if p.get("n") in ("pos", "position", "index", "idx") and
+              re.search(r"size_type|size_t|unsigned", p.get("ty", ""))]
+    if not params:
+        return None
+
+    def is_ptr(e):
+        e = astx.strip_casts(e)
+        if e is None:
+            return False
+        if e.get("k") == "call" and astx.callee(e)[0] in POINTERISH:
+            return True
+        if e.get("k") == "ref" and ("*" in (e.get("ty") or "") or "iterator" in (e.get("ty") or "") or "pointer" in (e.get("ty") or "")):
+            return True
+        if e.get("k") == "mem" and e.get("n", "").startswith("_") and e.get("dk") == "field" and "begin" in e.get("n", ""):
+            return True
+        if e.get("k") == "bin" and e["op"] in ("+", "-"):
+            return is_ptr(e["l"]) or is_ptr(e["r"])
+        return False
+
+    def arith_on(x):
+        """parameter name if node x adds to a raw position parameter"""
+        if x.get("k") == "bin" and x["op"] == "+":
+            for a, b in ((x["l"], x["r"]), (x["r"], x["l"])):
+                a0 = astx.strip_casts(a)
+                if a0 is not None and a0.get("k") == "ref" and a0.get("d") == "param" and a0["n"] in params and not is_ptr(b):
+                    return a0["n"]
+        if x.get("k") == "bin" and x["op"] == "+=":
+            a0 = astx.strip_casts(x["l"])
+            if a0 is not None and a0.get("k") == "ref" and a0.get("d") == "param" and a0["n"] in params:
+                return a0["n"]
+        if x.get("k") == "un" and x["op"] == "++":
+            a0 = astx.strip_casts(x["e"])
+            if a0 is not None and a0.get("k") == "ref" and a0.get("d") == "param" and a0["n"] in params:
+                return a0["n"]
+        return None
+    if not any(arith_on(x) for x in astx.all_exprs(f, into_lambdas=False)):
+        return None
+    from .arith import atoms as _atoms, FLIP as _FLIP
+    bad = []
+    for p in SP.paths(f["body"]):
+        bounded = set()
+
+        def effects(e, cond_facts=()):
+            for x in astx.walk_expr(e):
+                n = arith_on(x)
+                if n and n not in bounded and not any(b[1] is x for b in bad):
+                    # `pos + k <= size()` style guards mention the sum inside a comparison of the same condition: still a wrap
+                    bad.append((n, x))
+                if x.get("k") == "bin" and x["op"] == "=":
+                    a0 = astx.strip_casts(x["l"])
+                    if a0 is not None and a0.get("k") == "ref" and a0.get("n") in params:
+                        r0 = astx.strip_casts(x["r"])
+                        if r0 is not None and r0.get("k") == "call" and astx.callee(r0)[0] in ("min", "clamp"):
+                            bounded.add(a0["n"])
+                        elif r0 is not None and not any(y.get("k") == "ref" and y.get("n") == a0["n"] for y in astx.walk_expr(r0)):
+                            bounded.add(a0["n"])      # replaced by a value that does not depend on the raw argument
+        for ev in p:
+            if ev[0] in ("cond", "backedge-cond"):
+                effects(ev[1])
+                if ev[0] == "cond":
+                    for op, l, r in _atoms(ev[1], ev[2]):
+                        for a, b, o in ((l, r, op), (r, l, _FLIP[op])):
+                            a0 = astx.strip_casts(a)
+                            if a0 is not None and a0.get("k") == "ref" and a0.get("n") in params:
+                                btxt = astx.show(astx.strip_casts(b), 40)
+                                if o in ("<", "<=") or (o == "!=" and "npos" in btxt) or (o == "==" and "npos" not in btxt):
+                                    bounded.add(a0["n"])
+            elif ev[0] == "decl" and ev[1].get("init") is not None:
+                effects(ev[1]["init"])
+            elif ev[0] in ("expr", "ret") and ev[1] is not None:
+                effects(ev[1])
+    return bad
+
+
+def pos_wrap_area(chk, db, prefixes, rule="WRAP"):
+    n = 0
+    for f in db.funcs:
+        if f.get("body") is None or not any(f["file"].startswith(p) for p in prefixes):
+            continue
+        r = check_pos_wrap(chk, f, rule)
+        if r is None:
+            continue
+        n += 1
+        construct = astx.sig(f)
+        chk.instance(rule)
+        chk.obligation(rule, construct, not r)
+        for pn, node in r[:2]:
+            chk.violation(rule, construct, "position-wraps",
+                          "%s: `%s` adds to the position argument `%s` on a path on which it has not been bounded: for %s == npos "
+                          "(a valid argument of every search) the sum wraps around to a small position"
+                          % (astx.loc(f, node), astx.show(node, 50), pn, pn), {"where": astx.loc(f)})
     return n
